@@ -176,12 +176,9 @@ Section StoreProofs.
   Variable T : Type.
   Variable H : T -> T.
   Variable flip : nat -> T -> T.
-  Variable eqS : T -> T -> bool.
-  Hypothesis eqS_refl : forall s, eqS s s = true.
 
   Local Notation dsec := (derive_secret T H flip).
   Local Notation bs := (build_commitment_secret T H flip).
-  Local Notation provide := (provide_secret T H flip eqS).
   Local Notation getsec := (get_secret T H flip).
 
   Lemma derive_zero x : forall p s,
@@ -259,6 +256,11 @@ Section StoreProofs.
     - apply Nat.ltb_lt in E. rewrite upd_length. lia.
     - apply Nat.ltb_ge in E. rewrite app_length. cbn [length]. lia.
   Qed.
+
+  (** from here on the equality test of the store matters (reflexivity is all that is used) *)
+  Variable eqS : T -> T -> bool.
+  Hypothesis eqS_refl : forall s, eqS s s = true.
+  Local Notation provide := (provide_secret T H flip eqS).
 
   Lemma consistent_intro secret p : forall pos (st : store T),
     (forall i e, (i < pos)%nat -> nth_error st i = Some e -> eqS (dsec secret p (snd e)) (fst e) = true) ->
